@@ -125,7 +125,7 @@ def gen_case(rng, route='api'):
 
 def gen_pairs(shard, nshards, tier, seed):
     rng = random.Random(seed)
-    for _ in range(6000 if tier == 'quick' else 250000):
+    for _ in range(20000 if tier == 'quick' else 400000):
         yield gen_case(rng)
 
 
@@ -152,8 +152,8 @@ def strat_cmp():
 def units(tier):
     return [
         Unit('pairs-api', 'enum', shards=16, gen=gen_pairs),
-        Unit('int-lattice', 'enum', shards=16, gen=gen_int_lattice),
-        Unit('cmp-eval', 'hyp', shards=16, examples={'quick': 250, 'thorough': 8000},
+        Unit('int-lattice', 'enum', shards=1, gen=gen_int_lattice),
+        Unit('cmp-eval', 'hyp', shards=16, examples={'quick': 400, 'thorough': 10000},
              strategy=strat_cmp),
     ]
 
@@ -173,4 +173,12 @@ REGRESSIONS = [
     _c('cdcc4c7d', '000000a0cdcc4c7d'),             # single vs a double just above its widening
 ]
 
-KILLS = []
+KILLS = [
+    'seeded/C06 (Float.gt zero case ignores rhs.is_zero()) => rel.gt/gte/lt/lte',
+    'numbers.Float.gt: zero special case dropped => rel.gt/gte/lt/lte (dirty zeros vs zeros)',
+    'numbers.Float._abs_gt: mantissa bytes compared before the exponent byte => rel.gt/gte/lt/lte',
+    "numbers.Float.eq: 'all zeroes are equal' dropped => rel.eq, rel.neq (dirty zeros)",
+    'numbers.Integer.gt: `>=` on the low byte => rel.gt/gte/lt/lte on equal integers (int-lattice, pairs-api)',
+    'values.lte: implemented as lt => rel.lte and consistency.lte-vs-gt (cmp-eval, pairs-api)',
+    'SURVIVES (equivalent): the sign mask `rhscopy[-2] &= ...` in Float._abs_gt removed - Float.gt only calls _abs_gt with operands of equal sign, so the mask never changes a byte',
+]
